@@ -107,6 +107,31 @@ Theorem C08_cache_transparent_abbreviated_id : forall frepr loads_s loads_b f s 
 Proof. exact prefix_transparent. Qed.
 Print Assumptions C08_cache_transparent_abbreviated_id.
 
+(* ---------------------------------------------------------------- cached_statepoint of handles reached by id
+   (open_job(id=..) or iteration): what the session serves hashes to the id, and — for listed jobs — equals,
+   up to key order, what a fresh session without the cache file shows.  (The harness additionally compares
+   type-exactly: a tuple given by the caller must come back as the stored list.) *)
+Theorem C08_cached_statepoint_never_wrong : forall frepr loads_s f s i s' sp,
+  Inv frepr f s -> cached_by_id frepr loads_s f s i = (s', Ok sp) ->
+  exists m, (m = i \/ resolve_id f i = Ok m) /\ cid frepr sp = m.
+Proof. exact cached_by_id_never_wrong. Qed.
+Print Assumptions C08_cached_statepoint_never_wrong.
+
+Theorem C08_cache_transparent_cached_statepoint : forall frepr loads_s loads_b f s ids,
+  Inv frepr f s -> ws_intact frepr loads_s loads_b f ->
+  coll_free frepr loads_s f (map snd (s_cache s) ++ file_vals f) ->
+  (forall i, In i ids -> In i (listing f)) ->
+  Forall2 (fun x y => fst x = fst y /\ res_equiv (snd x) (snd y))
+    (snd (cached_all frepr loads_s f s ids)) (snd (cached_all frepr loads_s (without_cache f) fresh ids)).
+Proof. exact cached_transparent. Qed.
+Print Assumptions C08_cache_transparent_cached_statepoint.
+
+(* re-keying through a handle reached BY ID keeps the caches sound: the old id keeps its old state point *)
+Theorem C08_cache_sound_inv_rekey_by_id : forall frepr loads_b f s i new f' s' r,
+  Inv frepr f s -> op_rekey_id frepr loads_b f s i new = (f', s', r) -> Inv frepr f' s'.
+Proof. exact inv_rekey_id. Qed.
+Print Assumptions C08_cache_sound_inv_rekey_by_id.
+
 (* ---------------------------------------------------------------- update_cache_exact
    After update_cache() returns, the cache file lists exactly the ids of the workspace (exact: keys distinct,
    key set = directory listing, every value = the workspace state point up to key order), the workspace is
